@@ -46,11 +46,11 @@ func (l *tcs) allFlips(class string, v []byte) {
 	}
 }
 
-// sampled reports whether the (costly) part of the oracle runs for this
-// input: always in the quick tier, one string in `oneIn` in the thorough tier.
-// The choice depends on the bytes only.
+// sampled reports whether the (costly, reference-guarding) part of the oracle
+// runs for this input: one string in `oneIn`.  The choice depends on the
+// bytes only.
 func sampled(in []byte, oneIn uint64) bool {
-	if !lib.Thorough() || oneIn <= 1 {
+	if oneIn <= 1 {
 		return true
 	}
 	h := fnv.New64a()
